@@ -39,7 +39,8 @@ func (e *CachedPointDataExtractor) Extract(point string) (*PointData, error) {
 	// getUsers:7#User_8
 
 	if strings.Contains(point, "#") {
-		idData := strings.Split(point, "#")
+		// field names and indexes never contain a #, ids may: the id is all that follows the first one
+		idData := strings.SplitN(point, "#", 2)
 		if len(idData) == 2 {
 			id = idData[1]
 		}
